@@ -29,6 +29,10 @@ T = {
         tech="product exploration (bisimulation up to observations) of each real automaton representation/option with the one TLA+ specification automaton, by TLC; trace validation of identical calls through all kinds and the top-level searcher",
         text="Every representation (noncontiguous with 4 dense depths, contiguous with 6 dense-depth/byte-class settings, DFA with 3 start kinds x byte classes, with/without prefilter) is shown observationally equivalent to the same specification automaton on its entire reachable product, hence to each other for haystacks of every length; API-level calls through all seven kinds/entry levels are validated against the oracle.",
         ref="6 C04"),
+    "C05": dict(
+        tech="TLA+ decomposition checked with TLC: ACPrefilterMC (every admissible start-byte / rare-byte / memmem / packed prefilter answers every probe soundly) + ACSearch/ACOverlap with an abstract prefilter that may return ANY sound candidate; TLC trace validation of direct probes of the real prefilters, of which variant was built, and of prefilter on/off searches",
+        text="Model: (admissible => sound) for all parameter choices within bounds, and the search/overlapping loops are correct for every sound candidate at every probe, so transparency holds for whatever the byte-frequency heuristic picks. Implementation: the variant actually built is read from the public Debug output, its direct find_in answers on generated haystacks/spans must be sound (property level) and equal the model's candidate (drift level), and searches with the option on and off are both validated against the oracle on haystacks up to 120/300 bytes with planted candidate bytes.",
+        ref="6 C05"),
     "C07": dict(
         tech="TLA+ spec ACStream (Buffer fill/roll + StreamChunkIter, nondeterministic reader) model-checked with TLC over all read schedules and capacities; TLC trace validation (TraceStream) of recorded runs of the real stream search with scripted readers and hooked buffer capacity",
         text="TLC explores every read-size schedule for every small stream / pattern list / capacity min+{1,2,3,6} and checks that matches equal the in-memory iterator's (MatchPrefix, Complete) and the buffer indices never go wrong; every recorded run of the real StreamFindIter / stream replacement (exhaustive scripts on short streams at minimal capacities, seeded random longer ones up to the default capacity) is replayed action by action through the same specification, with all invariants evaluated at each step.",
@@ -41,6 +45,18 @@ T = {
         tech="TLA+ spec (ACSearch, ACIter, ACOverlap with anchored=TRUE) model-checked with TLC; product exploration in anchored mode; trace validation of anchored find/iter/stepwise-overlapping calls",
         text="Anchored find, iteration and stepwise overlapping are exhausted in the model against the anchored oracle; anchored walks of the real automata (NFA anchored start, DFA anchored copy) are product-explored; recorded anchored calls validated.",
         ref="6 C09"),
+    "C10": dict(
+        tech="TLC model checking of the oracle-level theorems (SpanLocal, OutsideIrrelevant, MatchesInSpan) and of ACSearch over all spans incl. start = end + 1; TLC trace validation of the span / mutated-outside / sub-slice triple of every search API",
+        text="The oracles read only haystack[start..end] (checked as theorems over all small inputs), the search machine is correct for every span, and on the real code each call is made on the span, on a copy whose outside bytes were replaced (including planted patterns straddling both boundaries) and on the sub-slice; all three are validated against the oracle, and every match must lie inside the span.",
+        ref="6 C10"),
+    "C11": dict(
+        tech="all operational TLA+ modules re-checked by TLC with ci = TRUE over an alphabet with a letter pair and '@'; product exploration of case-insensitive real automata (rows compared for all 256 bytes incl. @ [ ` {); trace validation of calls with mixed case, boundary bytes and bytes >= 0x80",
+        text="Fold is the only place case enters the specification (exactly A-Z). ACSearch/ACIter/ACOverlap are exhausted with ci; every real case-insensitive automaton is bisimilar to the specification automaton built from folded patterns fed folded bytes, for every byte value; pattern identifiers of patterns differing only in case stay distinct (match lists compared).",
+        ref="6 C11"),
+    "C12": dict(
+        tech="TLA+ spec ACReplace (splice loops for bytes and &str incl. the character-boundary skip and the closure returning false) model-checked with TLC; TLC trace validation of all replace entry points of the real code",
+        text="ReplaceCorrect, SlicesOnBoundaries and OutputUtf8 are invariants over all small pattern lists (bytes that split a two-byte character, the empty pattern), haystacks, replacement tables and stop positions; recorded results of try_replace_all(_bytes) and try_replace_all_with(_bytes) through the top-level searcher and the three automaton types are validated against ReplaceOracle, panics are rejected.",
+        ref="6 C12"),
     "C13": dict(
         tech="TLA+ total function ACApi!Outcome over the finite configuration space; TLC validates the executed matrix (every cell x every automaton kind) and its completeness",
         text="The configuration x API space is finite; every cell is executed on the real searcher for all four kinds under catch_unwind and TLC compares each with Outcome and checks that no cell is missing: exhaustive.",
@@ -53,6 +69,10 @@ T = {
         tech="TLA+ spec ACStream with a failing reader/writer (every failure position x every schedule) model-checked with TLC; TLC trace validation of real runs with injected read, write and closure failures at every position",
         text="With MaxFaults=1 the model lets the reader fail at any read and the writer/closure at any emission; ChunkConcat/MatchPrefix/Indices hold in every reachable state including the failed ones and `done` requires a reader-reported end. Real runs with a failure injected at every read index and every emission index (short streams, exhaustive) and random positions (longer) must end with an error (never a panic) and replay through the specification.",
         ref="6 C18", note=TRUST + "; hook H1 only"),
+    "C19": dict(
+        tech="TLA+ spec ACSearch with transition / failure-step counters and the invariants WorkBound, PositionMonotone, FailShortens model-checked with TLC; TLC trace validation of the real counters (hooks) per call on adversarial pattern families",
+        text="In the model every step consumes one byte, fails + depth(state) <= transitions and every failure link strictly shortens, for all configurations within bounds (incl. prefilter skips). On the real code the hook counters of each call must satisfy transitions <= span length, failure steps <= transitions (0 for a DFA) - property level - and equal the model's exact counts where no prefilter is involved - drift level; a watchdog turns a non-terminating failure walk into a recorded panic.",
+        ref="6 C19", note=TRUST + "; hooks H2/H4 (thread-local counters in the search loops and in both NFA next_state failure loops, cfg aho_corasick_verif)"),
     "C16": dict(
         tech="product exploration of the real automata (all reachable states x all bytes x both anchoring arguments) with the TLA+ specification automaton by TLC; trace validation of the documented caller-written loop vs the built-in search",
         text="For each dumped automaton the local contract (dead absorbing, dead/match special, special => dead/match/start, valid non-empty match lists, start_state errors) is evaluated by TLC on every state of the closure under both anchoring arguments, and the consistent-mode product agrees with the specification; the documented recipe, run on the real automata, is validated against the oracle next to try_find.",
